@@ -103,7 +103,7 @@ func c15GenOp(r *Rand) c15Op {
 			o.V = -99 // NewIntMap(nil)
 		} else {
 			for i := 0; i < n; i++ {
-				o.Vals = append(o.Vals, r.Range(-2, 6), r.Range(1, 4))
+				o.Vals = append(o.Vals, r.Range(-2, 6), r.Range(-1, 4)) // counts supplied by the caller may be zero or negative
 			}
 		}
 	}
